@@ -50,6 +50,9 @@ INVARIANT = [
     (lambda f, fn, kind, expr: kind == "newcoin" and "exomint" in f and "params.EpochReward" in expr, "C11_site_epoch_reward_nonneg"),
     (lambda f, fn, kind, expr: kind == "index" and "IterateOperatorsForAVS" in fn and "keys[1]" in expr, "C11_site_avs_prefix_key_two_parts"),
     (lambda f, fn, kind, expr: kind == "index" and "IterateAssetsForOperator" in fn and "keys[1]" in expr, "C11_site_operator_asset_keys_two_parts"),
+    # BigIntList.Median, the two even-branch indexes (the odd-branch one has a site-guard kernel and is classified before
+    # this list is consulted): no history hands Median an empty list (nil-aware oracle model, Proofs/OracleNil.lean)
+    (lambda f, fn, kind, expr: kind == "index" and fn == "BigIntList.Median", "C11_site_median_never_empty"),
 ]
 
 # explicit panics discharged by a theorem about regenerated facts on the callers (Props/C11Sites.lean)
